@@ -25,7 +25,7 @@ FAMILY = {
     'C05': 'fam_quantity', 'C06': 'fam_quantity', 'C19': 'fam_quantity',
     'C01': 'fam_solver', 'C02': 'fam_solver', 'C03': 'fam_solver', 'C04': 'fam_solver', 'C11': 'fam_solver', 'C12': 'fam_solver',
     'C13': 'fam_solver', 'C14': 'fam_solver', 'C15': 'fam_solver', 'C16': 'fam_solver',
-    'C08': 'fam_motor', 'C10': 'fam_rel', 'C20': 'fam_rel', 'C17': 'fam_keys', 'C09': 'fam_gear', 'C18': 'fam_report',
+    'C08': 'fam_motor', 'C10': 'fam_rel', 'C20': 'fam_rel', 'C17': 'fam_keys', 'C09': 'fam_gear', 'C18': 'fam_report', 'C07': 'fam_c07',
 }
 
 TRUSTED = [
